@@ -68,10 +68,15 @@ pub fn advice_inputs(sc: &Value) -> AdviceInputs {
     AdviceInputs::default().with_stack(adv)
 }
 
-pub fn exec_options(sc: &Value) -> ExecutionOptions {
+pub fn exec_options_checked(sc: &Value) -> Result<ExecutionOptions, String> {
     let max = sc["max_cycles"].as_u64().map(|x| x as u32);
     let exp = sc["expected_cycles"].as_u64().unwrap_or(64) as u32;
-    ExecutionOptions::new(max, exp, false).unwrap_or_default()
+    let tracing = sc["tracing"].as_bool().unwrap_or(false);
+    ExecutionOptions::new(max, exp, tracing).map_err(|e| format!("{e:?}"))
+}
+
+pub fn exec_options(sc: &Value) -> ExecutionOptions {
+    exec_options_checked(sc).unwrap_or_default()
 }
 
 /// Runs one scenario; returns the outcome record.
@@ -83,7 +88,13 @@ pub fn run_scenario(sc: &Value) -> Value {
     };
     let inputs = stack_inputs(sc);
     let advice = advice_inputs(sc);
-    let opts = exec_options(sc);
+    let opts = match catch(|| exec_options_checked(sc)) {
+        Ok(Ok(o)) => o,
+        Ok(Err(m)) => return json!({"outcome": "opt_err", "msg": m}),
+        Err(m) => return json!({"outcome": "opt_panic", "msg": m}),
+    };
+    let opt_max = opts.max_cycles();
+    let opt_exp = opts.expected_cycles();
     let r = catch(|| {
         let host = DefaultHost::new(MemAdviceProvider::from(advice));
         processor::execute(&program, inputs, host, opts)
@@ -94,9 +105,10 @@ pub fn run_scenario(sc: &Value) -> Value {
             let stack: Vec<Value> = outs.stack().iter().map(|x| u64_to_limbs(*x)).collect();
             let h: [Felt; 4] = program.hash().into();
             json!({"outcome": "ok", "stack": stack, "cycles": trace.trace_len_summary().main_trace_len(),
-                   "hash": felts_to_json(&h)})
+                   "hash": felts_to_json(&h), "opt_max": opt_max, "opt_exp": opt_exp,
+                   "trace_len": trace.get_trace_len()})
         }
-        Ok(Err(e)) => json!({"outcome": "err", "err": err_json(&e)}),
+        Ok(Err(e)) => json!({"outcome": "err", "err": err_json(&e), "opt_max": opt_max, "opt_exp": opt_exp}),
         Err(m) => json!({"outcome": "panic", "msg": m}),
     }
 }
